@@ -6,7 +6,7 @@ from ..core import astq
 from ..core import dims as D
 from ..core.cfg import guards_of
 from . import common as K
-from . import c06, c09, c11
+from . import c06, c09, c11, c16
 
 EXPLANATION = (
     "R13a: the integrator (Model._update_program_cache / update_pars) and the reporter (Result.get_coverage / get_alloc) obtain capacities, coverage, spending and the "
@@ -28,6 +28,7 @@ def run(ctx):
     ctx.each(c06.r06a, ctx, repo)
     ctx.each(r13e, ctx, repo, T)
     ctx.each(c11.r11e, ctx, repo, "R13f")
+    ctx.each(c16.r16a, ctx, repo, T)  # the outcome a program set implies is computed from a cache: it must follow every edit of the visible outcomes
 
 
 def _norm_src(txt):
